@@ -341,7 +341,12 @@ INPUTS = ['-', '(i 0)', '(i 5)',
           f'(l (p (s {symbol_value("a")}) (i 1)) (p (s {symbol_value("b")}) (cl 120)) (i 7))',
           f'(p (s {symbol_value("x")}) (i 9))', '(cl 104 105)', '(p (i 1) (i -5))',
           # identifiers that ARE in the input value but bound to a false / unit value: found, so the host must not be asked
-          f'(l (p (s {symbol_value("a")}) U) (p (s {symbol_value("x")}) F) (p (s {symbol_value("b")}) (i 2)))']
+          f'(l (p (s {symbol_value("a")}) U) (p (s {symbol_value("x")}) F) (p (s {symbol_value("b")}) (i 2)))',
+          # a list whose FIRST items are not symbol-keyed (a number-keyed pair, a unit item, a text-keyed pair) in front of the keyed ones
+          f'(l (p (i 1) (i 2)) (p (s {symbol_value("a")}) (i 3)) U (p (cl 120) (i 5)) (p (s {symbol_value("b")}) (i 4)) (p (s {symbol_value("x")}) (i 6)))',
+          # a concatenation of three parts in which one key is bound twice inside the inner concatenation
+          f'(cat (cat (p (s {symbol_value("x")}) (i 1)) (p (s {symbol_value("x")}) (i 2))) (p (s {symbol_value("a")}) (i 3)))',
+          f'(cat (p (s {symbol_value("b")}) (i 1)) (cat (p (s {symbol_value("a")}) (i 2)) (p (s {symbol_value("a")}) (i 3))))']
 
 
 def gen_program(rnd, depth):
